@@ -1024,7 +1024,9 @@ class Scores:
                     # https://en.wikipedia.org/wiki/Kernel_density_estimation
                     iqr = np.quantile(x, 0.75) - np.quantile(x, 0.25)
                     h = 0.9 * min(x.std(), iqr / 1.34) * math.pow(len(x), -0.2)
-                    return h
+                    # The interpolated quartiles of scores equal to -0.0 can differ in
+                    # the sign of zero, which makes h = -0.0, an invalid scale.
+                    return max(0.0, h)
 
                 h_pos = _estimate_bandwidth(pos)
                 h_neg = _estimate_bandwidth(neg)
